@@ -21,10 +21,16 @@ THEOREMS = [
     "TornadoModel.C27.invalid_range_ignored_refuted",
     "TornadoModel.C27.honoured_dash_valid",
     "TornadoModel.C27.invalid_range_ignored",
+    "TornadoModel.C27.status_304_iff",
+    "TornadoModel.C27.ims_304_iff_instant",
+    "TornadoModel.C27.parseInstant_eq",
+    "TornadoModel.C27.inm_precedence",
+    "TornadoModel.C27.unconditional_not_304",
 ]
 TRUSTED = [
-    "hashlib.sha512 (ETag), email.utils.parsedate_to_datetime / datetime comparison (If-Modified-Since), "
-    "httputil.format_timestamp (Last-Modified) and mimetypes.guess_type are parameters of the model; the harness computes them with the same stdlib functions",
+    "hashlib.sha512 (ETag), httputil.format_timestamp (Last-Modified) and mimetypes.guess_type are parameters of the model; the harness computes them with the same stdlib functions",
+    "email.utils.parsedate_to_datetime (_parsedate_tz, datetime/timezone constructors, aware comparison) is modelled by hand in C27/Date.lean on latin-1 text "
+    "and exercised by the correspondence stream; the oracle computes the instant a date denotes with its own strict RFC 5322 / RFC 9110 reader (no stdlib date code)",
     "str.partition/strip/isascii/isdigit, int() on ASCII digits (incl. the 4300-digit limit), re.findall for the ETag list regex, "
     "file seek/read: modelled by hand in C27/Model.lean, exercised by the correspondence stream",
 ]
@@ -33,16 +39,29 @@ ASSUMPTIONS = [
     "header values are what an HTTP/1.1 peer can send (latin-1 text without control characters); the unit stream feeds arbitrary Unicode strings to _parse_request_range directly",
     "If-None-Match is compared on code points (utf8() is injective and the ETag syntax is ASCII)",
     "optional whitespace (SP/HTAB) around the unit, '=', the numbers and '-' and a case-insensitive unit count as syntactically valid (DESIGN section 6)",
+    "If-Modified-Since values are latin-1 text of at most 200 characters without control characters other than HTAB (int()'s 4300-digit limit is out of reach)",
+    "the 304 oracle judges If-Modified-Since values that are well-formed dates (RFC 5322 date-time incl. obs-zone names and 2-digit years 00-49 / 85-99, "
+    "RFC 850 and asctime forms, fields in calendar range, zone offset below 24 h: 304 iff the denoted instant >= mtime) and values without any month name "
+    "(never 304); date-like text outside that grammar (no zone, 2-digit years 50-84 where RFC 5322, RFC 9110 and CPython disagree, years before 0100, second 60, AST/ADT, "
+    "3-digit years, out-of-range fields) is compared with the model only",
 ]
 RULE = ("(file size, Range header, If-None-Match, If-Modified-Since) -> GET and HEAD with the header, GET without Range, through a real "
         "Application/HTTPServer over a fake transport; Range strings from a grammar of valid and invalid specs dense around 0/size-1/size/size+1; "
-        "all sizes 0-40 x a fixed header set enumerated; non-trivial = a Range header is present and the response is not a plain 200 or the header is invalid; "
-        "distinct by canonical JSON")
-EXHAUSTIVE = {"quick": False, "thorough": True}
+        "If-Modified-Since dates rendered from (instant, zone, form): instants dense around the mtime and around mtime - zone offset (where the wall-clock "
+        "reading and the instant fall on different sides of the mtime), zones GMT / +-hhmm / obsolete names / none, forms IMF-fixdate, RFC 5322 with and "
+        "without day name or seconds, 2-digit years, RFC 850, asctime, trailing comment, odd case and spacing, plus mutated and garbage values; "
+        "all sizes 0-40 x a fixed header set enumerated; non-trivial = a Range header is present and the response is not a plain 200 or the header is invalid, "
+        "or an If-Modified-Since date is judged by the oracle; distinct by canonical JSON")
+EXHAUSTIVE = {"quick": False, "thorough": False}
 CLAUSES = {
     "200 whole / 206 with Content-Range a-b/size and body = bytes a..b / 416 with */size / 304 without body, Content-Length = body length":
         "response_shape (every file, every header text, GET/HEAD) via plan_window (all size/start/end, omega) + getContent_window + parse_end_nonneg",
     "HEAD yields the same status and headers with no body": "head_same_headers",
+    "which conditional requests get the 304 (implied by 'conditional responses match the file exactly'; the statement itself only lists the shapes)":
+        "status_304_iff + ims_304_iff_instant (no If-None-Match: 304 iff If-Modified-Since parses and the INSTANT it denotes, wall clock minus zone offset "
+        "(parseInstant_eq), is >= the mtime) + inm_precedence + unconditional_not_304, about the hand-written model of parsedate_to_datetime (Date.lean); "
+        "tie only: that the model's reading of a date text is the RFC 5322 / RFC 9110 one -- checked on every case by the oracle's own strict date reader "
+        "(304 iff denoted instant >= mtime for well-formed dates, never for non-dates), not proved in Lean",
     "a Range header that is not a syntactically valid single byte-range is ignored": "invalid_range_ignored (every header whose value contains a '-' and that the RFC grammar Spec.validRange rejects gives exactly "
         "the no-Range response) via honoured_dash_valid (honoured + dash => grammatical) + unparsed_range_ignored + "
         "honoured_fields_digits/intOrNone_digits; the dashless case: invalid_range_ignored_full is refuted by 'bytes=1' "
@@ -179,22 +198,197 @@ def _inm(rng, size):
     ])
 
 
+# ---- If-Modified-Since: own calendar arithmetic, renderer and strict reader (no stdlib date code on the oracle side)
+MON = ["Jan", "Feb", "Mar", "Apr", "May", "Jun", "Jul", "Aug", "Sep", "Oct", "Nov", "Dec"]
+DAY = ["Mon", "Tue", "Wed", "Thu", "Fri", "Sat", "Sun"]
+DAYLONG = ["Monday", "Tuesday", "Wednesday", "Thursday", "Friday", "Saturday", "Sunday"]
+RFC_ZONES = {"GMT": 0, "UT": 0, "EST": -5, "EDT": -4, "CST": -6, "CDT": -5, "MST": -7, "MDT": -6, "PST": -8, "PDT": -7}   # RFC 5322 4.3 obs-zone (hours)
+DISPUTED_ZONES = {"AST", "ADT"}      # CPython knows them, RFC 5322 says "unknown = -0000"
+
+
+def _days_from_civil(y, m, d):
+    """days since 1970-01-01 of the proleptic Gregorian date y-m-d"""
+    y -= m <= 2
+    era = y // 400
+    yoe = y - era * 400
+    doy = (153 * (m + (-3 if m > 2 else 9)) + 2) // 5 + d - 1
+    doe = yoe * 365 + yoe // 4 - yoe // 100 + doy
+    return era * 146097 + doe - 719468
+
+
+def _civil_from_days(z):
+    z += 719468
+    era = z // 146097
+    doe = z - era * 146097
+    yoe = (doe - doe // 1460 + doe // 36524 - doe // 146096) // 365
+    y = yoe + era * 400
+    doy = doe - (365 * yoe + yoe // 4 - yoe // 100)
+    mp = (5 * doy + 2) // 153
+    d = doy - (153 * mp + 2) // 5 + 1
+    m = mp + (3 if mp < 10 else -9)
+    return y + (m <= 2), m, d
+
+
+def _dim(y, m):
+    return [31, 29 if (y % 4 == 0 and (y % 100 != 0 or y % 400 == 0)) else 28, 31, 30, 31, 30, 31, 31, 30, 31, 30, 31][m - 1]
+
+
+def _render_date(rng, t, off, zone, form):
+    """the date whose instant is t, written with the wall clock of a zone `off` seconds east of UTC; None if the form cannot express it"""
+    w = t + off
+    days, sod = divmod(w, 86400)
+    y, m, d = _civil_from_days(days)
+    if not 1 <= y <= 9999:
+        return None
+    hh, mi, ss = sod // 3600, sod // 60 % 60, sod % 60
+    wd = (days + 3) % 7                                   # 1970-01-01 was a Thursday
+    sp = lambda: rng.choice([" ", " ", " ", " ", "  ", "\t", " \t"])
+    tm = "%02d:%02d:%02d" % (hh, mi, ss)
+    if form == "asctime":                                 # RFC 9110 asctime-date (always UTC)
+        return "%s %s %2d %s %04d" % (DAY[wd], MON[m - 1], d, tm, y) if off == 0 else None
+    if form == "rfc850":                                  # RFC 9110 rfc850-date (always GMT, 2-digit year)
+        return "%s, %02d-%s-%02d %s GMT" % (DAYLONG[wd], d, MON[m - 1], y % 100, tm) if off == 0 and (2000 <= y <= 2049 or 1985 <= y <= 1999) else None
+    year = "%04d" % y
+    if form == "yy":
+        if not (2000 <= y <= 2049 or 1985 <= y <= 1999):
+            return None
+        year = "%02d" % (y % 100)
+    if form == "yy-disputed":                             # 50-84: RFC 5322, RFC 9110 and CPython disagree
+        year = "%02d" % rng.choice([50, 60, 68, 69, 76, 77, 84])
+    if form == "nosec":
+        if ss:
+            return None
+        tm = tm[:5]
+    day = "%02d" % d if form != "shortday" else "%d" % d
+    mon, dn = MON[m - 1], DAY[wd]
+    if form == "case":
+        f = rng.choice([str.lower, str.upper])
+        mon, dn, zone = f(mon), f(dn), f(zone)
+    if form == "longmonth":                               # CPython only
+        mon = ["January", "February", "March", "April", "May", "June", "July", "August", "September", "October", "November", "December"][m - 1]
+    head = "" if form in ("noday", "nosec", "shortday") and rng.random() < 0.7 else dn + "," + ("" if form == "nofws" else sp())
+    out = head + day + sp() + mon + sp() + year + sp() + tm + (sp() + zone if zone else "")
+    if form == "comment":
+        out += " (" + rng.choice(["CEST", "UTC", "local time", "+0000", "Jan 1 1970 00:00:00 GMT"]) + ")"
+    return out
+
+
+IMS_FORMS = ["plain", "plain", "plain", "noday", "nosec", "shortday", "nofws", "yy", "yy-disputed", "case", "comment", "longmonth", "asctime", "rfc850"]
+IMS_OFFS = [0, 0, 60, -60, 3600, -3600, 7200, -7200, 19800, -16200, -28800, 50400, -43200, 86340, -86340]
+IMS_GARBAGE = ["", "yesterday", "0", "Tue", "Tue, 14 Nov 2023", "2023-11-14T22:13:20Z", "Tue, 14 Nov 2023 25:61:61 GMT", "Tue, 14 Nov 99999 22:13:20 GMT", "\xe9",
+               "Wed, 31 Feb 2024 00:00:00 GMT", "Tue, 14 Nov 2023 22:13:60 GMT", "Tue, 14 Nov 2023 22:13:20 +2400", "Tue, 14 Nov 2023 22:13:20 -2400",
+               "Tue, 14 Nov 2023 22:13:20 +2359", "Tue, 14 Nov 2023 22:13:20 +9999", "Tue, 14 Nov 2023 22:13:20 +0060", "Tue, 14 Nov 2023 22:13:20 -0000",
+               "Tue, 14 Nov 2023 22:13:20 -0", "Tue, 14 Nov 2023 22:13:20 +0", "Tue, 14 Nov 2023 22:13:20 0200", "Tue, 14 Nov 2023 22:13:20 +02:00", "Tue, 14 Nov 2023 22:13:20 +2_00",
+               "Tue, 14 Nov 2023 22:13:20+0200", "Tue, 14 Nov 2023 22:13:20-0200", "Tue, 14 Nov 2023 22.13.20 GMT", "Tue, 14 Nov 2023 22.13 GMT", "Tue, 14 Nov 2023 22 GMT",
+               "Tue, 14 Nov 2023 22:13:20:00 GMT", "Tue, 14 Nov 2023 -22:13:20 GMT", "Tue, 14 Nov 2023 +22:+13:+20 GMT", "Tue, 14 Nov 2023 2_2:1_3:2_0 GMT",
+               "Tue, Nov 14 2023 22:13:20 GMT", "Nov 14, 2023 22:13:20 GMT", "Tue, 14 Nov 22:13:20 2023 GMT", "Tue, 14 Nov 22:13:20 2023", "14-Nov-2023 22:13:20 GMT",
+               "14-Nov-23 22:13:20 +0200", "Tuesday, 14-Nov-23 22:13:20 EST", "Tue, 14 Nov 2023, 22:13:20, GMT", "Tue, 14, Nov 2023 22:13:20 GMT", "Tue, 14 Nov, 2023 22:13:20 GMT",
+               "Tue, 14 Nov GMT 22:13:20 2023", "Tue, 14 Nov +0200 22:13:20 2023", "Tue, 14 Nov \xb2023 22:13:20 GMT", "Tue, 14 Nov 2023 22:13:20 \xb2", "x,y,14 Nov 2023 22:13:20 GMT",
+               ",14 Nov 2023 22:13:20 GMT", "Tue, 0 Nov 2023 22:13:20 GMT", "Tue, 14 Nov 0 22:13:20 GMT", "Tue, 14 Nov 0000 22:13:20 GMT", "Tue, 14 Nov -5 22:13:20 GMT",
+               "Tue, 14 Nov 123 22:13:20 GMT", "Mon, 01 Jan 0001 00:00:00 +0100", "Mon, 01 Jan 0001 00:00:00 -0100", "Fri, 31 Dec 9999 23:59:59 -0100", "Fri, 31 Dec 9999 23:59:59 +0100",
+               "Fri, 31 Dec 9999 23:59:59 GMT", "Tue, 14 Nov 2023 22:13:20 AST", "Tue, 14 Nov 2023 22:13:20 Z", "Tue, 14 Nov 2023 22:13:20 UTC", "Tue, 14 Nov 2023 22:13:20 A",
+               "Tue, 14 Nov 2023 22:13:20 CEST", "Tue, 14 Nov 2023 22:13:20 gmt+1", "Tue, 14 Nov 2023 22:13:20 GMT+0100", "Tue,\xa014\xa0Nov\xa02023\xa022:13:20\xa0GMT",
+               "Tue, 14 Nov 2023 22:13:20 GMT garbage", "Thu, 29 Feb 2024 00:00:00 GMT", "Wed, 29 Feb 2023 00:00:00 GMT", "Tue, 29 Feb 2100 00:00:00 GMT", "Tue, 29 Feb 2000 00:00:00 GMT",
+               "Sun Nov  6 08:49:37 1994", "Sunday, 06-Nov-94 08:49:37 GMT", "Sun, 06 Nov 1994 08:49:37 GMT", "may 14 2023 22:13:20", "14 May 2023 22:13:20 +0000", "14 mayy 2023 22:13:20 GMT"]
+
+
+def _ims_structured(rng):
+    off = rng.choice(IMS_OFFS)
+    zone = None
+    k = rng.random()
+    if k < 0.25:
+        zone = rng.choice(list(RFC_ZONES) + ["AST", "ADT", "Z", "UTC", "A", "N", "CEST", "-0000", "+0000", ""])
+        off = 3600 * RFC_ZONES.get(zone, {"AST": -4, "ADT": -3}.get(zone, 0))
+    d = rng.choice([-1, 0, 0, 1, -off - 1, -off, -off, -off + 1, -off // 2, -off // 2, off, -3600, 3600, -86400, 86400, -86400 * 400, 86400 * 400,
+                    -86400 * 365 * 30, 86400 * 365 * 20, rng.randint(-100000, 100000)])
+    if zone is None:
+        zone = "GMT" if off == 0 and rng.random() < 0.7 else "%s%02d%02d" % ("+" if off >= 0 else "-", abs(off) // 3600, abs(off) // 60 % 60)
+    for _ in range(4):
+        s = _render_date(rng, MTIME + d, off, zone, rng.choice(IMS_FORMS))
+        if s is not None:
+            return s
+    return _render_date(rng, MTIME + d, off, zone, "plain")
+
+
 def _ims(rng):
-    import email.utils
     k = rng.random()
     if k < 0.7:
-        d = rng.choice([-86400 * 400, -3600, -1, 0, 0, 1, 3600, 86400 * 400])
-        s = email.utils.formatdate(MTIME + d, usegmt=True)
+        return _ims_structured(rng)
+    if k < 0.85:                                           # one-character mutation of a well-formed date
+        s = _ims_structured(rng)
+        i = rng.randrange(len(s) + 1)
+        ins = rng.choice(list("0123456789:,-+ _.()") + ["\t", "\xa0", "\xb2", "\xe9", "G", "a", "Z", "00", "  "])
         m = rng.random()
-        if m < 0.1:
-            s = s.replace(" GMT", "")          # naive: the code assumes UTC
-        elif m < 0.2:
-            s = s.replace("GMT", "-0000")
-        elif m < 0.3:
-            s = s.replace("GMT", "+0100")
-        return s
-    return rng.choice(["yesterday", "0", "Tue", "Tue, 14 Nov 2023", "2023-11-14T22:13:20Z", "Tue, 14 Nov 2023 25:61:61 GMT",
-                       "Tue, 14 Nov 99999 22:13:20 GMT", "\xe9", "Wed, 31 Feb 2024 00:00:00 GMT"])
+        if m < 0.4:
+            return (s[:i] + ins + s[i:]).strip(" \t")
+        if m < 0.7:
+            return (s[:i] + s[i + 1:]).strip(" \t")
+        return (s[:i] + ins + s[i + 1:]).strip(" \t")
+    if k < 0.92:                                           # token-level mutation: swap / drop / duplicate / glue
+        t = _ims_structured(rng).split()
+        i, j = rng.randrange(len(t)), rng.randrange(len(t))
+        m = rng.random()
+        if m < 0.4:
+            t[i], t[j] = t[j], t[i]
+        elif m < 0.6:
+            del t[i]
+        elif m < 0.8:
+            t.insert(j, t[i])
+        else:
+            t[i] = t[i] + rng.choice(["", ",", "-", "+", ":", "."]) + t[j]
+        return " ".join(t)
+    return rng.choice(IMS_GARBAGE)
+
+
+_M3 = "jan|feb|mar|apr|may|jun|jul|aug|sep|oct|nov|dec"
+_D3 = "mon|tue|wed|thu|fri|sat|sun"
+_RE_5322 = re.compile(r"(?:(?:%s),[ \t]*)?([0-9]{1,2})[ \t]+(%s)[ \t]+([0-9]{2,})[ \t]+([0-9]{2}):([0-9]{2})(?::([0-9]{2}))?[ \t]+([+-][0-9]{4}|[a-z]{1,5})(?:[ \t]+\([^()]*\))?"
+                      % (_D3, _M3), re.I | re.A)
+_RE_850 = re.compile(r"(?:monday|tuesday|wednesday|thursday|friday|saturday|sunday),[ \t]+([0-9]{2})-(%s)-([0-9]{2})[ \t]+([0-9]{2}):([0-9]{2}):([0-9]{2})[ \t]+gmt" % _M3, re.I | re.A)
+_RE_ASC = re.compile(r"(?:%s)[ \t]+(%s)[ \t]+([0-9]{1,2})[ \t]+([0-9]{2}):([0-9]{2}):([0-9]{2})[ \t]+([0-9]{4})" % (_D3, _M3), re.I | re.A)
+
+
+def _denoted(v):
+    """the instant a date string denotes, read strictly and independently of the implementation:
+    ("instant", seconds since the epoch, wall-clock seconds) for a well-formed RFC 5322 date-time (incl. obs-zone, obs-year 00-49/85-99, trailing comment),
+    RFC 850 date or asctime date whose fields are in calendar range; ("nodate",) for text without any month name; ("unspecified",) otherwise."""
+    v = v.strip(" \t")
+    zone = "GMT"
+    m = _RE_5322.fullmatch(v)
+    if m:
+        d, mon, y, hh, mi, ss, zone = m.groups()
+    else:
+        m = _RE_850.fullmatch(v)
+        if m:
+            d, mon, y, hh, mi, ss = m.groups()
+        else:
+            m = _RE_ASC.fullmatch(v)
+            if m:
+                mon, d, hh, mi, ss, y = m.groups()
+            else:
+                return ("unspecified",) if re.search(_M3, v, re.I) else ("nodate",)
+    ylen = len(y)
+    d, y, hh, mi, ss = int(d), int(y), int(hh), int(mi), int(ss or "0")
+    mon = _M3.split("|").index(mon.lower()) + 1
+    if ylen == 2:
+        if 50 <= y <= 84:
+            return ("unspecified",)
+        y += 2000 if y <= 49 else 1900
+    elif ylen != 4 or y < 100:                            # CPython reads a zero-padded 00yy like the 2-digit yy
+        return ("unspecified",)
+    if not (1 <= y <= 9999 and 1 <= d <= _dim(y, mon) and hh <= 23 and mi <= 59 and ss <= 59):
+        return ("unspecified",)
+    if zone[0] in "+-":
+        zh, zm = int(zone[1:3]), int(zone[3:5])
+        if zm > 59 or zh > 23:
+            return ("unspecified",)
+        off = (zh * 3600 + zm * 60) * (-1 if zone[0] == "-" else 1)
+    elif zone.upper() in DISPUTED_ZONES:
+        return ("unspecified",)
+    else:
+        off = 3600 * RFC_ZONES.get(zone.upper(), 0)       # RFC 5322: other alphabetic zones are read as -0000
+    wall = _days_from_civil(y, mon, d) * 86400 + hh * 3600 + mi * 60 + ss
+    return ("instant", wall - off, wall)
 
 
 def _mk(rng, size):
@@ -206,9 +400,9 @@ def _mk(rng, size):
     k = rng.random()
     if k < 0.12:
         c["inm"] = _inm(rng, size)
-    elif k < 0.24:
+    elif k < 0.42:
         c["ims"] = _ims(rng)
-    elif k < 0.28:
+    elif k < 0.47:
         c["inm"] = _inm(rng, size)
         c["ims"] = _ims(rng)
     return c
@@ -229,6 +423,24 @@ def gen_cases(rng, tier):
                 yield {"kind": "http", "size": size, "range": h, "inm": None, "ims": None}
         for h in INVALID + SPECIAL_VALID + UNIT_ONLY + ENUM_HEADERS:
             yield {"kind": "unit", "header": h}
+        # If-Modified-Since: every zone offset x instants on both sides of the mtime and of mtime - offset, a few forms; all garbage values
+        for off in sorted(set(IMS_OFFS)):
+            zone = "%s%02d%02d" % ("+" if off >= 0 else "-", abs(off) // 3600, abs(off) // 60 % 60)
+            for d in sorted({-1, 0, 1, -off - 1, -off, -off + 1, -off // 2, off}):
+                for form in (["plain", "noday", "yy", "comment"] if tier == "thorough" else ["plain"]):
+                    v = _render_date(rng, MTIME + d, off, zone, form)
+                    if v is not None:
+                        yield {"kind": "http", "size": 5, "range": rng.choice([None, "bytes=1-2", "bytes=9-"]), "inm": None, "ims": v}
+        for name, hours in sorted(RFC_ZONES.items()):
+            for d in (-1, 0, 3600 * hours, -3600 * hours - 1, -3600 * hours):
+                yield {"kind": "http", "size": 5, "range": None, "inm": None, "ims": _render_date(rng, MTIME + d, 3600 * hours, name, "plain")}
+        for d in (-1, 0, 1):
+            for form in ("asctime", "rfc850", "nosec", "shortday", "nofws", "case", "longmonth"):
+                v = _render_date(rng, MTIME + d - (MTIME + d) % 60 * (form == "nosec"), 0, "GMT", form)
+                if v is not None:
+                    yield {"kind": "http", "size": 5, "range": None, "inm": None, "ims": v}
+        for v in IMS_GARBAGE:
+            yield {"kind": "http", "size": 5, "range": None, "inm": None, "ims": v}
     for _ in range(n):
         k = rng.random()
         if k < 0.8:
@@ -282,23 +494,6 @@ def _request(app, method, size, hdrs):
     return _parse_response(_http(app, raw + b"\r\n"))
 
 
-def _ims_class(v):
-    """the external date comparison of should_return_304, with the same stdlib calls"""
-    import datetime, email.utils
-    if v is None:
-        return "absent"
-    try:
-        d = email.utils.parsedate_to_datetime(v)
-    except Exception:
-        return "unparseable"
-    if d.tzinfo is None:
-        d = d.replace(tzinfo=datetime.timezone.utc)
-    try:
-        return "notBefore" if d >= datetime.datetime.fromtimestamp(MTIME, datetime.timezone.utc) else "before"
-    except Exception:
-        return "unparseable"
-
-
 def run_impl(case):
     from tornado import web, httputil
     if case["kind"] == "unit":
@@ -314,7 +509,6 @@ def run_impl(case):
     out = {"get": _request(app, "GET", case["size"], hs), "head": _request(app, "HEAD", case["size"], hs)}
     if case["range"] is not None:
         out["norange"] = _request(app, "GET", case["size"], hs[1:])
-    out["ims_class"] = _ims_class(case["ims"])
     return out
 
 
@@ -335,7 +529,7 @@ def _lastmod():
 def _respond_line(case, impl, head, with_range=True):
     size = case["size"]
     return line(ID, "respond", _content(size), _etag(size), _lastmod(), "application/octet-stream", atom("T" if head else "F"),
-                case["range"] if with_range else None, case["inm"], atom(impl.get("ims_class") or _ims_class(case["ims"])))
+                case["range"] if with_range else None, case["inm"], case["ims"], MTIME)
 
 
 def model_requests(case, impl):
@@ -366,9 +560,7 @@ def model_result(case, replies):
 
 
 def impl_view(case, impl):
-    if case["kind"] == "unit":
-        return impl
-    return {k: v for k, v in impl.items() if k != "ims_class"}
+    return impl
 
 
 # ------------------------------------------------------------------ property oracle
@@ -420,6 +612,46 @@ def _shape(resp, content, head):
     return None
 
 
+_RE_ETAGS = re.compile(r'(?:W/)?"[\x21\x23-\x7e\x80-\xff]*"(?:[ \t]*,[ \t]*(?:W/)?"[\x21\x23-\x7e\x80-\xff]*")*')
+
+
+def _expect_304(case):
+    """RFC 9110 13.2.2 for a GET/HEAD of an existing file, from the request alone: True / False / None (not judged).
+    If-None-Match takes precedence (judged when it is `*` or a well-formed entity-tag list: weak comparison with the file's ETag);
+    otherwise 304 exactly when If-Modified-Since denotes an instant >= the file's mtime."""
+    inm, ims = case["inm"], case["ims"]
+    if inm:
+        v = inm.strip(" \t")
+        if v == "*":
+            return True
+        if _RE_ETAGS.fullmatch(v):
+            mine = _etag(case["size"])
+            return any(t == mine for t in re.findall(r'"[^"]*"', v))
+        return None
+    if inm is not None:
+        return None                                   # an empty If-None-Match: not generated
+    if ims is None:
+        return False
+    d = _denoted(ims)
+    if d[0] == "instant":
+        return d[1] >= MTIME
+    return False if d[0] == "nodate" else None
+
+
+def _why_304(case, got):
+    if case["inm"]:
+        return "304 although no listed entity-tag matches" if got else "no 304 although If-None-Match lists the file's entity-tag"
+    if case["ims"] is None:
+        return "304 without a conditional header"
+    d = _denoted(case["ims"])
+    if d[0] == "nodate":
+        return "304 although If-Modified-Since is not a date"
+    wall = "wall-clock reading on the other side" if (d[2] >= MTIME) != (d[1] >= MTIME) else "same side in any zone"
+    if got:
+        return "304 although If-Modified-Since denotes an instant before the file's mtime (instant %d, mtime %d; %s)" % (d[1], MTIME, wall)
+    return "no 304 although If-Modified-Since denotes an instant at or after the file's mtime (instant %d, mtime %d; %s)" % (d[1], MTIME, wall)
+
+
 def spec_violation(case, impl, replies):
     valid = None
     if replies:
@@ -441,6 +673,11 @@ def spec_violation(case, impl, replies):
     g, h = impl["get"], impl["head"]
     if g["status"] != h["status"] or g["headers"] != h["headers"]:
         return "HEAD differs from GET in status or headers"
+    exp = _expect_304(case)
+    if exp is not None:
+        for which in ("get", "head", "norange"):
+            if which in impl and (impl[which]["status"] == 304) != exp:
+                return "%s: %s" % (which.upper(), _why_304(case, not exp))
     if valid is False and impl["norange"] != g:
         return "invalid Range header honoured (%s): response differs from the one without Range" % _hclass(case["range"])
     return None
@@ -448,6 +685,8 @@ def spec_violation(case, impl, replies):
 
 def nontrivial(case, impl):
     if case["kind"] == "unit":
+        return True
+    if case["ims"] is not None and _denoted(case["ims"])[0] == "instant":
         return True
     return case["range"] is not None and (impl["get"]["status"] != 200 or impl["get"] == impl.get("norange"))
 
@@ -460,7 +699,13 @@ def stats(case, impl):
     for k in ("range", "inm", "ims"):
         if case[k] is not None:
             out.append("has:" + k)
-    out.append("ims:" + impl["ims_class"])
+    if case["ims"] is not None:
+        d = _denoted(case["ims"])
+        out.append("ims:" + (d[0] if d[0] != "instant" else "instant-notBefore" if d[1] >= MTIME else "instant-before"))
+        if d[0] == "instant":
+            out.append("imswall:" + ("other-side" if (d[2] >= MTIME) != (d[1] >= MTIME) else "same-side" if d[2] != d[1] else "utc"))
+    e = _expect_304(case)
+    out.append("expect304:" + ("unjudged" if e is None else str(e)))
     return out
 
 
